@@ -76,3 +76,33 @@ Theorem C11_torque_limited_not_above_set : forall (p : pump (T:=R)) (Q : R) (w :
   find_torque_limited_speed RN fuel p Q w = Some r -> 0 <= r <= n0.
 Proof. exact LC11b.torque_limited_not_above. Qed.
 Print Assumptions C11_torque_limited_not_above_set.
+
+(* TERMINATION of the torque- and power-limited searches in the driver-limited case, for every pump and flow whose
+   headroom ratio q(n) = Pavail(n) / P(n) falls, per unit of ln n, by at least delta and at most 4 - delta on
+   (0, set speed] (0 < delta <= 2; pure affinity scaling is delta = 3 - 0 = 3 for power mode's q ~ n^-3, i.e. any
+   delta <= 1 works there), whose required power is bounded by M, and whose floor n0 q(n0)^(1/delta) lies above the
+   asserted minimum 1/60 Hz: there is a pass count K such that with any fuel above K the model's loop returns a speed
+   r -- through its loop test, not through the assertion -- with 1/60 < r <= n0 and |Pavail(r) - P(r)| < 0.1 kW.
+   PA p tq is the available power of the mode (tq = true: torque, Pavail = power_available; false: avail_power). *)
+From DHV Require Import LC11c.
+Theorem C11_limited_search_terminates : forall (p : pump (T:=R)) (Q : R) (w tq : bool) (delta M : R),
+  let n0 := current_speed p in let Pw := fun n => power_required RN p Q n w in let q := fun n => PA p tq n / Pw n in
+  0 < n0 -> 0 < delta <= 2 -> (forall n, 0 < n <= n0 -> 0 < Pw n <= M) -> (forall n, 0 < n <= n0 -> 0 < PA p tq n) ->
+  (forall a b, 0 < a -> a <= b -> b <= n0 -> ln (q b) - ln (q a) <= - delta * (ln b - ln a)) ->
+  (forall a b, 0 < a -> a <= b -> b <= n0 -> - (4 - delta) * (ln b - ln a) <= ln (q b) - ln (q a)) ->
+  PA p tq n0 < Pw n0 -> 1 / 60 < n0 * exp (ln (q n0) / delta) ->
+  exists K : nat, forall fuel, (K < fuel)%nat ->
+    exists r, (if tq then find_torque_limited_speed RN fuel p Q w else find_power_limited_speed RN fuel p Q w) = Some r /\
+              1 / 60 < r <= n0 /\ - (1 / 10) < PA p tq r - Pw r < 1 / 10.
+Proof. exact LC11c.limited_search_terminates. Qed.
+Print Assumptions C11_limited_search_terminates.
+
+(* the analytic premises are satisfiable (flat QP curve: P = 2 n^3, constant available power 1, set speed 1) *)
+Theorem C11_termination_premises_nonvacuous :
+  let q := fun n : R => / (2 * n ^ 3) in
+  (forall n, 0 < n <= 1 -> 0 < q n) /\
+  (forall a b, 0 < a -> a <= b -> b <= 1 -> ln (q b) - ln (q a) <= - 1 * (ln b - ln a)) /\
+  (forall a b, 0 < a -> a <= b -> b <= 1 -> - (4 - 1) * (ln b - ln a) <= ln (q b) - ln (q a)) /\
+  q 1 < 1 /\ 1 / 60 < 1 * exp (ln (q 1) / 1).
+Proof. exact LC11c.contract_premises_example. Qed.
+Print Assumptions C11_termination_premises_nonvacuous.
